@@ -29,7 +29,7 @@ ASSUMPTIONS = ['model written from XML Schema Part 2 2nd edition; where 1st ed./
                'known findings are excluded by construction (excluded_known) and kept as witnesses under regress-known/C09']
 BUDGET = {'quick': 520, 'thorough': 5000}
 if os.environ.get('C09_DEV_BUDGET'): BUDGET = {'quick': int(os.environ['C09_DEV_BUDGET']), 'thorough': int(os.environ['C09_DEV_BUDGET'])}    # sensitivity runs on a loaded machine only
-WALLCAP = {'quick': 500, 'thorough': 2700}
+WALLCAP = {'quick': 900, 'thorough': 3600}
 
 CORE_TYPES = ['decimal'] + list(D.INT_RANGES) + ['boolean', 'float', 'double', 'dateTime', 'date', 'time', 'hexBinary', 'base64Binary', 'string', 'normalizedString', 'token']
 EXT_TYPES = ['gYearMonth', 'gYear', 'gMonthDay', 'gDay', 'gMonth', 'duration', 'language', 'NMTOKEN', 'Name', 'NCName']
@@ -313,11 +313,12 @@ def check_builtin(case, ex, note):
         _, dl2 = dtv_request(ex, [], [('k', tn, c, '1') for _, w, c in second if w == 'd'])
         xi = di = 0
         for i, w, c in second:
+            judged = D.verdict(tn, c)[0] is not None      # e.g. a canonical form with year 0000 lies in an R2 zone
             if w == 'x':
                 got = dict(p.split('=', 1) for p in xs2[xi].split('\t'))['c'].split(':', 1)[1]; xi += 1
             else:
                 got = dl2[di][4:] if dl2[di].startswith('can\t') else dl2[di]; di += 1
-            if xv.unesc(got) != c:
+            if judged and xv.unesc(got) != c:
                 return False, '%s canonical form is not idempotent for %s: %r -> %r -> %r' % ('XSValue' if w == 'x' else 'DatatypeValidator', tn, rows[i][1], c, xv.unesc(got))
     return True, 'ok'
 
@@ -625,8 +626,34 @@ def flush(note, stats):
         lst = stats.extra.setdefault('refused_definitions', [])
         if len(lst) < 5: lst.append(s)
 
+def enum_batches():
+    """small exhaustive sub-spaces (run once per run by worker 0): every base64 final quantum character, leap-day x century years,
+    every integer type's range ends +-1"""
+    out = []
+    out.append({'lane': 'builtin', 'type': 'base64Binary', 'lits': ['A' + c + '==' for c in D.B64], 'parse': True, 'scanner': 'IG'})
+    out.append({'lane': 'builtin', 'type': 'base64Binary', 'lits': ['AA' + c + '=' for c in D.B64], 'parse': True, 'scanner': 'SG'})
+    years = ['0004', '0100', '0400', '1600', '1700', '1800', '1900', '2000', '2023', '2024', '2100', '2200', '2300', '2400', '3000', '10000', '12300', '12400']
+    for t, suf in (('date', ''), ('dateTime', 'T12:00:00'), ('date', 'Z'), ('dateTime', 'T00:00:00-05:00')):
+        out.append({'lane': 'builtin', 'type': t, 'lits': ['%s-02-%s%s' % (y, d, suf) for y in years for d in ('28', '29', '30')], 'parse': True, 'scanner': 'IG'})
+    out.append({'lane': 'builtin', 'type': 'gYearMonth', 'lits': ['%s-%s' % (y, m) for y in years[:6] for m in ('00', '01', '12', '13')], 'parse': True, 'scanner': 'SG'})
+    out.append({'lane': 'builtin', 'type': 'gMonthDay', 'lits': ['--%02d-%02d' % (m, d) for m in range(1, 13) for d in (28, 29, 30, 31, 32)], 'parse': True, 'scanner': 'IG'})
+    for tn, (lo, hi) in D.INT_RANGES.items():
+        lits = []
+        for b in (lo, hi):
+            if b is not None: lits += [str(b - 1), str(b), str(b + 1), ' %d ' % b, ('-0' if b < 0 else '0') + str(abs(b))]
+        out.append({'lane': 'builtin', 'type': tn, 'lits': lits + ['0', '1', '-1'], 'parse': True, 'scanner': 'IG'})
+    for c in out: c['labels'] = [['bd:enumerated-boundary'] for _ in c['lits']]
+    return out
+
 def worker(ctx):
     ex = ctx.executor('xv_dtype')
+    if ctx.worker == 0:
+        for case in enum_batches():
+            note = Note()
+            ok, detail = check_case(case, ex, note)
+            flush(note, ctx.stats)
+            ctx.stats.extra['exhaustive'] = ctx.stats.extra.get('exhaustive', 0) + len(case['lits'])
+            if not ok: ctx.stats.failures.append({'case': case, 'detail': detail})
     def prop(case):
         note = Note()
         ok, detail = check_case(case, ex, note)
